@@ -303,3 +303,122 @@ pub proof fn lemma_string_key_model()
 {
     broadcast use axiom_string_key_model;
 }
+
+// ---- form folding (C12): body parameters "treated exactly as if they had been appended to the URL query" ----
+pub open spec fn merge_append(a: QMap, b: QMap) -> QMap {
+    IMap::new(
+        |k: Seq<u8>| a.contains_key(k) || b.contains_key(k),
+        |k: Seq<u8>| (if a.contains_key(k) { a[k] } else { Seq::<Seq<u8>>::empty() }) + (if b.contains_key(k) { b[k] } else { Seq::<Seq<u8>>::empty() }),
+    )
+}
+pub proof fn lemma_map_of_append(p1: Seq<Pair>, p2: Seq<Pair>)
+    ensures map_of(p1 + p2) == merge_append(map_of(p1), map_of(p2))
+    decreases p2.len()
+{
+    if p2.len() == 0 {
+        assert(p1 + p2 =~= p1);
+        assert(map_of(p2) =~= QMap::empty());
+        assert(merge_append(map_of(p1), map_of(p2)) =~= map_of(p1)) by {
+            let m = map_of(p1);
+            assert forall|k: Seq<u8>| m.contains_key(k) implies #[trigger] merge_append(m, QMap::empty())[k] == m[k] by {
+                assert(m[k] + Seq::<Seq<u8>>::empty() =~= m[k]);
+            }
+        }
+    } else {
+        lemma_map_of_append(p1, p2.drop_last());
+        assert((p1 + p2).drop_last() =~= p1 + p2.drop_last());
+        assert((p1 + p2).last() == p2.last());
+        let k = p2.last().0;
+        let v = p2.last().1;
+        let a = map_of(p1);
+        let b0 = map_of(p2.drop_last());
+        let lhs = map_of(p1 + p2);
+        let rhs = merge_append(a, map_of(p2));
+        assert forall|x: Seq<u8>| lhs.contains_key(x) == rhs.contains_key(x) by {}
+        assert forall|x: Seq<u8>| lhs.contains_key(x) implies #[trigger] lhs[x] == rhs[x] by {
+            if x == k {
+                let av = if a.contains_key(k) { a[k] } else { Seq::<Seq<u8>>::empty() };
+                if b0.contains_key(k) {
+                    assert((av + b0[k]).push(v) =~= av + b0[k].push(v));
+                } else {
+                    assert((av + Seq::<Seq<u8>>::empty()) =~= av);
+                    if a.contains_key(k) { assert(av.push(v) =~= av + seq![v]); } else { assert(seq![v] =~= av + seq![v]); }
+                }
+            }
+        }
+        assert(lhs =~= rhs);
+    }
+}
+
+/// the abstract map of the first n entries of a HashMap (in its iteration order)
+pub open spec fn entries_qmap(seq: Seq<(String, Vec<String>)>, n: int) -> QMap
+    decreases n
+{
+    if n <= 0 { QMap::empty() } else { entries_qmap(seq, n - 1).insert(str_bytes(seq[n - 1].0@), vals_bytes(seq[n - 1].1@)) }
+}
+pub open spec fn owned_entries_cover(seq: Seq<(String, Vec<String>)>, m: Map<String, Vec<String>>) -> bool {
+    &&& (forall|i: int, j: int| 0 <= i < j < seq.len() ==> (#[trigger] seq[i]).0 != (#[trigger] seq[j]).0)
+    &&& (forall|i: int| 0 <= i < seq.len() ==> m.contains_key((#[trigger] seq[i]).0) && m[seq[i].0] == seq[i].1)
+    &&& (forall|k: String| m.contains_key(k) ==> exists|i: int| 0 <= i < seq.len() && (#[trigger] seq[i]).0 == k)
+}
+pub proof fn lemma_entries_qmap_keys(seq: Seq<(String, Vec<String>)>, n: int, kb: Seq<u8>)
+    requires 0 <= n <= seq.len()
+    ensures entries_qmap(seq, n).contains_key(kb) <==> exists|i: int| 0 <= i < n && str_bytes((#[trigger] seq[i]).0@) == kb
+    decreases n
+{
+    if n > 0 {
+        lemma_entries_qmap_keys(seq, n - 1, kb);
+        if str_bytes(seq[n - 1].0@) == kb { assert(str_bytes(seq[n - 1].0@) == kb); }
+    }
+}
+pub proof fn lemma_entries_qmap_value(seq: Seq<(String, Vec<String>)>, n: int, i: int)
+    requires 0 <= i < n <= seq.len(), forall|a: int, b: int| 0 <= a < b < seq.len() ==> (#[trigger] seq[a]).0 != (#[trigger] seq[b]).0
+    ensures entries_qmap(seq, n)[str_bytes(seq[i].0@)] == vals_bytes(seq[i].1@)
+    decreases n
+{
+    broadcast use axiom_string_of_bytes;
+    if i < n - 1 {
+        lemma_entries_qmap_value(seq, n - 1, i);
+        assert(seq[i].0 != seq[n - 1].0);
+        assert(str_bytes(seq[i].0@) != str_bytes(seq[n - 1].0@));
+    }
+}
+/// whatever the iteration order, all entries together are the map
+pub proof fn lemma_entries_qmap_full(seq: Seq<(String, Vec<String>)>, m: Map<String, Vec<String>>)
+    requires owned_entries_cover(seq, m)
+    ensures entries_qmap(seq, seq.len() as int) == qmap(m)
+{
+    broadcast use axiom_string_of_bytes;
+    let a = entries_qmap(seq, seq.len() as int);
+    let b = qmap(m);
+    assert forall|kb: Seq<u8>| a.contains_key(kb) == b.contains_key(kb) by {
+        lemma_entries_qmap_keys(seq, seq.len() as int, kb);
+        if a.contains_key(kb) {
+            let i = choose|i: int| 0 <= i < seq.len() && str_bytes((#[trigger] seq[i]).0@) == kb;
+            assert(string_of_bytes(kb) == seq[i].0);
+        }
+        if b.contains_key(kb) {
+            let k = string_of_bytes(kb);
+            let i = choose|i: int| 0 <= i < seq.len() && (#[trigger] seq[i]).0 == k;
+            assert(str_bytes(seq[i].0@) == kb);
+        }
+    }
+    assert forall|kb: Seq<u8>| a.contains_key(kb) implies #[trigger] a[kb] == b[kb] by {
+        lemma_entries_qmap_keys(seq, seq.len() as int, kb);
+        let i = choose|i: int| 0 <= i < seq.len() && str_bytes((#[trigger] seq[i]).0@) == kb;
+        lemma_entries_qmap_value(seq, seq.len() as int, i);
+        assert(string_of_bytes(kb) == seq[i].0);
+    }
+    assert(a =~= b);
+}
+/// adding one more (fresh) body entry to the merged map
+pub proof fn lemma_merge_append_insert(a: QMap, b: QMap, k: Seq<u8>, v: Seq<Seq<u8>>)
+    requires !b.contains_key(k)
+    ensures merge_append(a, b.insert(k, v)) == merge_append(a, b).insert(k, (if a.contains_key(k) { a[k] } else { Seq::<Seq<u8>>::empty() }) + v)
+{
+    let l = merge_append(a, b.insert(k, v));
+    let r = merge_append(a, b).insert(k, (if a.contains_key(k) { a[k] } else { Seq::<Seq<u8>>::empty() }) + v);
+    assert forall|x: Seq<u8>| l.contains_key(x) == r.contains_key(x) by {}
+    assert forall|x: Seq<u8>| l.contains_key(x) implies #[trigger] l[x] == r[x] by {}
+    assert(l =~= r);
+}
